@@ -426,6 +426,33 @@ def check_ring_orders(prog: Program, res: Result) -> None:
                 continue
             if all(sorted(r) == [1, 2, 3, 4] for r in rows):
                 tables.append((n, rows))
+    # the table may live at module level (wrapped in np.array / tuple ..)
+    if not tables:
+        used = {x.id for x in ast.walk(fi.node) if isinstance(x, ast.Name)}
+        for st in fi.module.tree.body:
+            tgt = val = None
+            if isinstance(st, ast.Assign) and len(st.targets) == 1 and \
+                    isinstance(st.targets[0], ast.Name):
+                tgt, val = st.targets[0].id, st.value
+            elif isinstance(st, ast.AnnAssign) and isinstance(
+                    st.target, ast.Name) and st.value is not None:
+                tgt, val = st.target.id, st.value
+            if tgt not in used or val is None:
+                continue
+            while isinstance(val, ast.Call) and len(val.args) >= 1 and (
+                    call_name(val) or "").split(".")[-1] in (
+                    "array", "asarray", "tuple", "list", "frozenset"):
+                val = val.args[0]
+            if isinstance(val, (ast.Tuple, ast.List)) and len(
+                    val.elts) >= 2 and all(
+                    isinstance(e, (ast.Tuple, ast.List)) and len(e.elts) == 4
+                    for e in val.elts):
+                try:
+                    rows = [tuple(ast.literal_eval(e)) for e in val.elts]
+                except Exception:
+                    continue
+                if all(sorted(r) == [1, 2, 3, 4] for r in rows):
+                    tables.append((st, rows))
     inst = "_square_planar_from_coords: ring orders cover the 3 trans pairings"
     if len(tables) != 1:
         res.unrecognised("T-RING-ORDERS", inst, fi.loc(),
